@@ -6,6 +6,7 @@ import (
 	"sort"
 
 	"github.com/Azbesciak/RealDecisionMaker/lib/model"
+	"github.com/Azbesciak/RealDecisionMaker/lib/utils"
 )
 
 // (id type) | (id type min max)
@@ -77,4 +78,36 @@ func copyAlts(as []model.AlternativeWithCriteria) []model.AlternativeWithCriteri
 		r[i] = model.AlternativeWithCriteria{Id: a.Id, Criteria: copyW(a.Criteria)}
 	}
 	return r
+}
+
+// (nc co crit mp) — a DecisionMakingParams
+func dmpSX(d *model.DecisionMakingParams) SX {
+	return L(altsSX(d.NotConsideredAlternatives), altsSX(d.ConsideredAlternatives), critsSX(d.Criteria), paramsSX(d.MethodParameters))
+}
+
+// prepareDMP does what DecisionMaker.prepareParams does (validation included), for stage tests that
+// need a real DecisionMakingParams with the method's own parsed parameters.
+func prepareDMP(dm *model.DecisionMaker) (*model.DecisionMakingParams, string) {
+	var d *model.DecisionMakingParams
+	msg := recoverErr(func() {
+		dm.Criteria.Validate()
+		pf := funcs.Fetch(dm.PreferenceFunction)
+		d = &model.DecisionMakingParams{
+			NotConsideredAlternatives: *dm.NotConsideredAlternatives(),
+			ConsideredAlternatives:    *dm.AlternativesToConsider(),
+			Criteria:                  dm.Criteria,
+			MethodParameters:          (*pf).ParseParams(dm),
+		}
+	})
+	return d, msg
+}
+
+// draws returns the first k numbers of the generator every seeded component of the service uses.
+func draws(seed int64, k int) []float64 {
+	g := utils.RandomBasedSeedValueGenerator(seed)
+	out := make([]float64, k)
+	for i := range out {
+		out[i] = g()
+	}
+	return out
 }
